@@ -2,7 +2,7 @@
 before anything else that can throw runs (otherwise a rejected image leaks the items already built);
 (2) serde<std::string>::deserialize(bytes): each read through the cursor is preceded, in the same iteration, by the
 `bytes_read + <size of that read> > capacity` test that leaves the loop."""
-from astu import strip, strip_all, walk, walkp, txt, short, stmts_of, functions_by, local_decls, always_throws
+from astu import C, ctxt, gt_pair, eq_const, strip, strip_all, walk, walkp, txt, short, stmts_of, functions_by, local_decls, always_throws
 from vlib.core import ob
 
 
@@ -246,9 +246,17 @@ def decoder_bounds(facts):
                     if p.get("k") == "Block":
                         for s in stmts_of(p):
                             if s.get("k") == "If" and always_throws(s.get("t")):
-                                refs = set()
-                                walk(s["c"], lambda x: refs.add(x.get("d")) if x.get("k") == "Ref" else None)
-                                if i["d"] in refs and any(op in txt(s["c"]) for op in (">=", ">")):
+                                # some ordering comparison rejects when the row is the greater side (row >= k, k <= row, ...)
+                                def rej(x):
+                                    g = gt_pair(x) if x.get("k") == "Bin" else None
+                                    if g:
+                                        refs = set()
+                                        walk(g[0], lambda y: refs.add(y.get("d")) if y.get("k") == "Ref" else None)
+                                        if i["d"] in refs:
+                                            hit.append(x)
+                                hit = []
+                                walk(s["c"], rej)
+                                if hit:
                                     ok = True
                 out.append(ob("reader.decoder-bounds", "%s:window-row#%d:bounded" % (short(fn["patq"]), j), n["loc"], "discharged" if ok else "violated", "the decoded row is compared with k before it indexes the window" if ok else "`%s` is indexed by a row taken from decoded pairs without a bound check: with an lg_k byte smaller than the one the image was written with, rows reach beyond the k-byte window (heap write)" % txt(n)[:40], fn["qname"]))
     if found < 2:
